@@ -11,7 +11,7 @@ from .. import core, libx, world
 from ..model import curves as mcurves
 
 ID = "C10"
-LEVEL = "fault_enumeration"
+LEVEL = "exploration"
 RULE = ("each run = one curve, one key, 8-16 deliveries; each delivery is a "
         "valid encoding (public key raw/uncompressed/compressed/hybrid, DER, "
         "PEM; private key raw, ssleay/pkcs8 DER/PEM; signature raw/pair/DER) "
